@@ -767,7 +767,7 @@ func checkPools(c *core.Ctx, l *core.Ledger) {
 		}
 		for k := 0; k < st.NumFields(); k++ {
 			fld := st.Field(k)
-			key := fmt.Sprintf("%s.%s", tname, fld.Name())
+			key := fmt.Sprintf("%s.%s", tname, core.FieldName(fld))
 			// (c) construction-only
 			if len(storesOutsideNew[k]) == 0 {
 				setInNew := false
